@@ -341,3 +341,67 @@ func Harness_C07_ConcurrentMeta_3() { vC07ConcurrentMeta(3, vC07Metas, []int{0, 
 func Harness_C07_ConcurrentMetaDealer_2() {
 	vC07ConcurrentMeta(2, []wamp.URI{wamp.MetaProcSessionCount}, []int{0, 3})
 }
+
+// The wait cycle the dealer's code comments warn about, forced
+// deterministically with gate actions: the meta session's handler is waiting to
+// hand a meta-procedure YIELD to the dealer while the dealer runs a request
+// that announces meta events. The announcement must not be made from inside
+// the dealer goroutine.
+func Harness_C07_DealerMetaHandoff() {
+	r := vNewRouter(&Config{RealmConfigs: []*RealmConfig{{URI: "realm1", AnonymousAuth: true}}})
+	a := vAttach(r, "realm1", nil, 64)
+	b := vAttach(r, "realm1", nil, 64)
+	vAssert("attached", a != nil && b != nil)
+	rl := r.realms["realm1"]
+	b.send(&wamp.Register{Request: 1, Procedure: "b.proc"})
+	rg, _ := vFindMsg[*wamp.Registered](b.drain())
+	vAssert("b-registered", rg != nil)
+	if rg == nil {
+		return
+	}
+	op := vChoice("b.op", 3)
+	// 1. park the realm goroutine: the meta procedure will wait for it
+	realmGate := make(chan struct{})
+	rl.actionChan <- func() { <-realmGate }
+	a.send(&wamp.Call{Request: 10, Procedure: wamp.MetaProcSessionCount})
+	vQuiesce()
+	// 2. park the dealer, then queue b's request behind the gate
+	dealerGate := make(chan struct{})
+	rl.dealer.actionChan <- func() { <-dealerGate }
+	sent := make(chan struct{})
+	go func() {
+		defer close(sent)
+		switch op {
+		case 0:
+			b.send(&wamp.Unregister{Request: 20, Registration: rg.Registration})
+		case 1:
+			b.send(&wamp.Register{Request: 20, Procedure: "b.proc2"})
+		case 2:
+			b.send(&wamp.Goodbye{Reason: wamp.CloseRealm, Details: wamp.Dict{}})
+		}
+	}()
+	vQuiesce()
+	// 3. the meta procedure finishes: its YIELD now waits for the dealer, behind b's request
+	close(realmGate)
+	vQuiesce()
+	// 4. the dealer resumes
+	close(dealerGate)
+	<-sent
+	res, n := vFindMsg[*wamp.Result](a.drain())
+	vAssert("meta-call-answered-despite-concurrent-request", n == 1 && res != nil && res.Request == 10)
+	bm := b.drain()
+	switch op {
+	case 0:
+		_, k := vFindMsg[*wamp.Unregistered](bm)
+		vAssert("unregister-answered", k == 1)
+	case 1:
+		_, k := vFindMsg[*wamp.Registered](bm)
+		vAssert("register-answered", k == 1)
+	case 2:
+		_, k := vFindMsg[*wamp.Goodbye](bm)
+		vAssert("goodbye-answered", k == 1)
+	}
+	vAssert("no-worker-stuck-sending", vBlockedSends() == 0)
+	vBystanderServed(r, a)
+	vCover("dealer-meta-handoff-done")
+}
